@@ -695,9 +695,84 @@ def _param_name(a):
     return None
 
 
+def check_tree_links(prog, rep, m):
+    """T9: structural premises of the status tree (not its correctness).  (a) doubly-linked consistency: in every
+    function that rewires the tree, the set of (parent, child) pairs written through LEFT / RIGHT fields equals the set
+    written through PARENT fields (a child pointer without the matching parent pointer, or the reverse, corrupts the
+    walk to the root that maintains the subtree maxima); (b) the two fix-up routines are mirror-symmetric: the
+    arguments of their left rotations are the LEFT<->RIGHT mirror images of the arguments of their right rotations."""
+    from ..sym import subst
+    entry = 'viewshed status tree'
+    C = {n: const(v[0]) for n, v in m.assigns.items() if len(v) == 1 and isinstance(const(v[0]), int)}
+    if any(n not in C for n in ('TN_LEFT_ID', 'TN_RIGHT_ID', 'TN_PARENT_ID')):
+        raise AnalysisIncomplete('tree field constants missing')
+    LEFT, RIGHT, PARENT = Rat.const(C['TN_LEFT_ID']), Rat.const(C['TN_RIGHT_ID']), Rat.const(C['TN_PARENT_ID'])
+
+    def strip(r):
+        # a may-alias read is compared by the cell it reads (all reads used here precede the cell's own store)
+        def f(a):
+            if isinstance(a, App) and a.name == 'cell?':
+                return Rat.atom(App('read', [strip(x) if isinstance(x, Rat) else x for x in a.args[:-1]]))
+            return None
+        return subst(r, f) if isinstance(r, Rat) else r
+
+    def mirror(r):
+        def f(a):
+            if isinstance(a, App) and a.name in ('read', 'cell?') and len(a.args) >= 3 and a.args[2] in (LEFT, RIGHT):
+                args = [mirror(x) if isinstance(x, Rat) else x for x in (a.args if a.name == 'read' else a.args[:-1])]
+                args[2] = RIGHT if a.args[2] == LEFT else LEFT
+                return Rat.atom(App('read', args))
+            if isinstance(a, App) and a.name == 'cell?':
+                return Rat.atom(App('read', [mirror(x) if isinstance(x, Rat) else x for x in a.args[:-1]]))
+            return None
+        return subst(r, f) if isinstance(r, Rat) else r
+    for fname in ('_left_rotate', '_right_rotate', '_insert_into_tree', '_delete_from_tree'):
+        f = m.funcs.get(fname)
+        if f is None:
+            raise AnalysisIncomplete('%s not found' % fname)
+        k = interpret(prog, f, strict=False)
+        child, parent = set(), set()
+        shown_c, shown_p = [], []
+        for st in k.stores:
+            if isinstance(st.idx, str) or len(st.idx) != 2 or not isinstance(st.value, Rat) or st.arr.name != f.params[1]:
+                continue
+            if st.idx[1] in (LEFT, RIGHT):
+                child.add((strip(st.idx[0]).canon_key(), strip(st.value).canon_key()))
+                shown_c.append(norm(st.node))
+            elif st.idx[1] == PARENT:
+                parent.add((strip(st.value).canon_key(), strip(st.idx[0]).canon_key()))
+                shown_p.append(norm(st.node))
+        ok = bool(child) and child == parent
+        rep.add('T9', f, entry, '%s: %d child links, %d parent links' % (fname, len(shown_c), len(shown_p)), f.node.lineno, ok,
+                'every `node.left/right = c` must be matched by `c.parent = node` for the same pair and vice versa (child stores %s; '
+                'parent stores %s)' % (shown_c, shown_p))
+    for fname in ('_rb_insert_fixup', '_rb_delete_fixup'):
+        f = m.funcs.get(fname)
+        if f is None:
+            raise AnalysisIncomplete('%s not found' % fname)
+        k = interpret(prog, f, strict=False)
+        lefts = sorted(repr(strip(c[1][3]).canon_key()) for c in k.calls if c[0] == '_left_rotate' and len(c[1]) == 4 and isinstance(c[1][3], Rat))
+        rights_m = sorted(repr(mirror(c[1][3]).canon_key()) for c in k.calls if c[0] == '_right_rotate' and len(c[1]) == 4 and isinstance(c[1][3], Rat))
+        nl = sum(1 for c in k.calls if c[0] == '_left_rotate')
+        nr = sum(1 for c in k.calls if c[0] == '_right_rotate')
+        ok = nl == nr and nl >= 2 and lefts == rights_m
+        rep.add('T9', f, entry, '%s: %d left / %d right rotations, mirror-image arguments' % (fname, nl, nr), f.node.lineno, ok,
+                'the fix-up treats "parent is a left child" and "parent is a right child" by mirror-image code: the nodes rotated '
+                'left in one half must be the LEFT<->RIGHT mirror images of the nodes rotated right in the other')
+        # colour stores are mirror-symmetric too
+        COLOR = Rat.const(C.get('TN_COLOR_ID', 0))
+        cols = [(strip(st.idx[0]), strip(st.value)) for st in k.stores if not isinstance(st.idx, str) and len(st.idx) == 2 and
+                st.idx[1] == COLOR and st.loops and st.arr.name == f.params[1] and isinstance(st.value, Rat)]
+        a_ = sorted((repr(n.canon_key()), repr(v.canon_key())) for n, v in cols)
+        b_ = sorted((repr(mirror(n).canon_key()), repr(mirror(v).canon_key())) for n, v in cols)
+        rep.add('T9', f, entry, '%s: %d recolourings closed under the LEFT<->RIGHT mirror' % (fname, len(cols)), f.node.lineno,
+                bool(cols) and a_ == b_, 'every recolouring in one half of the fix-up must have its mirror image in the other half')
+
+
 def check(prog, rep):
     m = prog.module('viewshed')
     check_sweep_skeleton(prog, rep, m)
+    check_tree_links(prog, rep, m)
     check_tables(prog, rep, m)
     check_layouts(prog, rep, m)
     check_encoding(prog, rep, m)
@@ -711,3 +786,4 @@ def check(prog, rep):
     rep.floor('T7', 2)
     rep.floor('T10', 2)
     rep.floor('T11', 7)
+    rep.floor('T9', 8)
